@@ -10,29 +10,31 @@ BASELINE_OFF = ('cd /repo && env -u EXCEL2PYCL_VERIF /venv/bin/python -m pytest 
 
 # sentences appended to the level texts (monitors added in later rounds)
 MIXED = (' A further set of shards judges typed random nests over the whole function set that use at least one function of this '
-         'property (one function\'s result flowing into another: vf/gen/exprs.py) against the same reference.')
+         'property (one function\'s result flowing into another: vf/gen/exprs.py) against the same reference.'
+         ' Every workbook judged against the reference also carries a last worksheet of pair sums (=a+b of two judged cells: one evaluation must give the sum of the two values from evaluations of their own), and every second shared-Executor valuation starts with a list query that fails half way.')
 HOST = (' Some shards are repeated in a process where every library call runs under a host decimal context of 2-4 digits '
         '(pipeline.guarded, VERIF_HOST_DECIMAL) - same expectations.')
 EXTRA = {
     'C01': HOST + ' Operands on other worksheets (titles that are numbers below the sheet count, quoted, address-shaped) supplied by the workbook and by overrides addressed by title or index; mixed-case texts under the six comparisons. Whole-number literals beyond 2^53 (written out and with exponents) and arithmetic on them.',
-    'C03': ' Ring edges of cyclic workbooks are arithmetic steps, bare references in five spellings or a mix; mirror cells close cycles through qualified and absolute references. Areas written with their corners in any order; graphs whose precedents are shared (a cell used twice by its successor, two-term recurrences, lattices) under a persistent step budget; running totals of 40-250 rows, slice against whole file (known finding: refusal of the long ones).',
-    'C04': ' The workbook also holds link cells (a formula that is one reference), chains of them and random formulas over them, all of them override targets. Overrides by date-only values and by the blank object of another generated class; batches handed over as tuple, iterator, generator, map, dict view; the caller\'s Cell objects changed after the call; batches refused at their last cell (size grew iff the cell was written); hot cells alternate between ==-equal constants (1, TRUE, 1.0).',
-    'C05': ' Argument lists of 60-254 arguments and their mutants. The arity table follows the grammar (IFS in pairs, ADDRESS with two to five arguments).',
+    'C03': ' Ring edges of cyclic workbooks are arithmetic steps, bare references in five spellings or a mix; mirror cells close cycles through qualified and absolute references. Areas written with their corners in any order; graphs whose precedents are shared (a cell used twice by its successor, two-term recurrences, lattices) under a persistent step budget; running totals of 40-250 rows, slice against whole file (known finding: refusal of the long ones). Slices reached through areas of a thousand cells and more.',
+    'C04': ' The workbook also holds link cells (a formula that is one reference), chains of them and random formulas over them, all of them override targets. Overrides by date-only values and by the blank object of another generated class; batches handed over as tuple, iterator, generator, map, dict view; the caller\'s Cell objects changed after the call; batches refused at their last cell (size grew iff the cell was written); hot cells alternate between ==-equal constants (1, TRUE, 1.0). The class set again after a query (overrides stay in force).',
+    'C05': ' Argument lists of 60-254 arguments and their mutants. The arity table follows the grammar (IFS in pairs, ADDRESS with two to five arguments). Whitespace after the last token.',
     'C06': ' Every argument position of every function takes an argument of 44 kinds in turn (areas spelled right to left, whole columns, other sheets, calls, error literals); part of the whole-workbook workload runs in an interpreter whose locale encoding is ASCII. Class files under names without a .py suffix and with non-ASCII letters; literals of thousands of digits; a scaling shard that times texts of n and 2n characters in a process of its own and judges the growth (unclosed wildcard texts).',
-    'C07': ' Criteria assembled as "text"&expression, literals joined directly by &, payloads that close either quote style and comment out the rest of the line.',
+    'C07': ' Criteria assembled as "text"&expression, literals joined directly by &, payloads that close either quote style and comment out the rest of the line. Literals holding the vocabulary of the file format and of the generated class (_xlfn., self., return, R1C1, &amp;).',
     'C08': ' The second executor receives its overrides as ONE list that names coordinates repeatedly (other values, other spellings) and must behave like its last-wins normal form. Addresses that name no cell (row texts, column letters, titles, sheet numbers) through get_cell, get_cells, set_cells and get_sheet; the last row of 200- and 560-row chains through the three calls and from deeper callers (known finding: RecursionError for the long one).',
-    'C09': ' The sha matrix also spans processes with an ASCII locale encoding, other time zones and UTF-8 mode, over workbooks with non-ASCII titles and texts; the bytes written by write_translation are compared with the returned text. A fresh interpreter that shows / raises compile-time warnings imports the library (no warning out of its own source files).',
-    'C10': ' The same cell on both sides of every operator in four spellings (reflexivity).',
+    'C09': ' The sha matrix also spans processes with an ASCII locale encoding, other time zones and UTF-8 mode, over workbooks with non-ASCII titles and texts; the bytes written by write_translation are compared with the returned text. A fresh interpreter that shows / raises compile-time warnings imports the library (no warning out of its own source files). One Parser used by two threads (second request, or a setter, while a translation is running; the trials that really overlapped are counted).',
+    'C10': ' The same cell on both sides of every operator in four spellings (reflexivity). Differences of date-times with sub-second parts compared with numbers; texts only Python reads as numbers (1_0, digits of other scripts) with the law that a text which is no number equals only itself.',
     'C11': MIXED + HOST + ' Data areas also hold formula cells of every result kind (ROUND of a blank / logical cell, logical and text results). Areas of 60 000 and 120 000 rows handed to the generated class\'s fold helpers (value, and growth of the time between the two sizes).',
-    'C12': MIXED + HOST + ' Date-time cells against date criteria, whole-column sum ranges, tilde runs before wildcards. Remarks (texts) in the sum range; month-and-year criteria under virtual clocks of one year (the value must not depend on the day it is asked); texts with long digit runs.',
-    'C13': MIXED + ' Conditions are also expressions over the condition cell (starting with a literal, comparing the cell with itself); IFERROR around whole areas and INDEX rows inside aggregates. Conditions built by AND / OR over partly filled areas, products that overflow inside IFERROR, differences of dates; array-style conditions (a value, if any, is the element-wise one); IFERROR at the end of a 120-190 row chain asked with 0-930 extra caller frames.',
-    'C14': MIXED + ' INDEX with constant positions over areas of this and another sheet; text keys looked up in another case. Key vectors lying in a row or consisting of one cell; tables with blank rows below the keys; computed and out-of-table column numbers; ADDRESS with three to five arguments given as literals, cells and conditionals.',
-    'C15': MIXED + HOST + ' Year, month and day arriving as whole floats; DATEDIF over date-times with a time of day.',
-    'C16': MIXED + HOST + ' Host shards also set decimal traps (DefaultContext and thread context); a negative amount rounded to nothing must not be -0.0.',
-    'C17': MIXED + HOST + ' VALUE of percentages, year-month-day dates and times of day; blank cells as counts. Operands whose shortest Python spelling differs from the 15-digit text form (0.1+0.2, 1/3, 1e-5) and date-times with a time of day.',
-    'C18': ' A third of the workbooks carry a forged size record per worksheet part (understated, boxed, overstated, dropped) or cells touched without a value. Exotic cell values (data-table objects, numbers read back as inf, times of day, durations): refused by the library or a class in which every ordinary cell still has its value.',
-    'C19': ' Fragments surrounded by prose brackets (closing ones before the first opening one). Innocent texts with a number directly before a bracket.',
-    'C20': HOST + ' Generated holiday lists with repeated dates.',
+    'C12': MIXED + HOST + ' Date-time cells against date criteria, whole-column sum ranges, tilde runs before wildcards. Remarks (texts) in the sum range; month-and-year criteria under virtual clocks of one year (the value must not depend on the day it is asked); texts with long digit runs. Ranges lying in a row with several aggregates per formula; wildcards running over line breaks.',
+    'C13': MIXED + ' Conditions are also expressions over the condition cell (starting with a literal, comparing the cell with itself); IFERROR around whole areas and INDEX rows inside aggregates. Conditions built by AND / OR over partly filled areas, products that overflow inside IFERROR, differences of dates; array-style conditions (a value, if any, is the element-wise one); IFERROR at the end of a 120-190 row chain asked with 0-930 extra caller frames. Six threads querying one Executor, and an Executor each on one class, against the single-threaded values (overlapping query pairs counted).',
+    'C14': MIXED + ' INDEX with constant positions over areas of this and another sheet; text keys looked up in another case. Key vectors lying in a row or consisting of one cell; tables with blank rows below the keys; computed and out-of-table column numbers; ADDRESS with three to five arguments given as literals, cells and conditionals. Key columns of 1001-2047 rows; logicals among the keys.',
+    'C15': MIXED + HOST + ' Year, month and day arriving as whole floats; DATEDIF over date-times with a time of day. Two NETWORKDAYS intervals over one holiday range in one evaluation.',
+    'C16': MIXED + HOST + ' Host shards also set decimal traps (DefaultContext and thread context); a negative amount rounded to nothing must not be -0.0. Four threads rounding through an Executor each on one class object; digit counts up to 100000.',
+    'C17': MIXED + HOST + ' VALUE of percentages, year-month-day dates and times of day; blank cells as counts. Operands whose shortest Python spelling differs from the 15-digit text form (0.1+0.2, 1/3, 1e-5) and date-times with a time of day. VALUE of spellings only Python reads as numbers.',
+    'C18': ' A third of the workbooks carry a forged size record per worksheet part (understated, boxed, overstated, dropped) or cells touched without a value. Exotic cell values (data-table objects, numbers read back as inf, times of day, durations): refused by the library or a class in which every ordinary cell still has its value. One Cell object moved from constant to constant by its integer coordinates.',
+    'C19': ' Fragments surrounded by prose brackets (closing ones before the first opening one). Innocent texts with a number directly before a bracket. Notes of up to 32700 characters with the fragment behind round offsets; upper-case function names with digits; arguments with line breaks.',
+    'C20': HOST + ' Generated holiday lists with repeated dates. Criterion patterns against texts with line breaks.',
+    'C02': ' The same area read twice in one evaluation, once by a search from the end.',
 }
 
 # id -> (technique, level text, level note)
